@@ -1,0 +1,6 @@
+//go:build !verif
+
+package vhook
+
+// At marks a yield point. It does nothing unless built with the `verif` tag.
+func At(scope, point string, n uint64) {}
